@@ -115,6 +115,8 @@ share: {self.value}"""
         share_bit_length = (len(indices) - 7) * 10 // 16 * 16
         if value >> share_bit_length != 0:
             raise SyntaxError("Share not 0-padded properly")
+        if (len(indices) - 7) * 10 - share_bit_length > 8:
+            raise ValueError("Invalid padding length")
         if share_bit_length < 128:
             raise ValueError("not enough bits")
         return cls(
